@@ -80,3 +80,45 @@ Proof.
            (PlanProofs.compile_model_valid arities P sccs Hw Hs) (PlanProofs.compile_model_valid arities P' sccs' Hw' Hs') Hr Hr').
 Qed.
 Print Assumptions c06_planned_runs_invariant.
+
+(* ================= the textual order of the rules and the ORDER of the strata =================
+   c06_planned_runs_invariant holds for any two partitions meeting sccs_ok.  Plan/PlanOrder.v: a partition that puts a consumer
+   before one of its producers does NOT meet it (whatever the textual order that suggested it), and the example shows that
+   the hypothesis cannot be dropped: the same six rules, the stratum {link symmetric, link transitive} feeding `out` through two
+   rule-level edges next to the producer chain cand -> hub; with `out` evaluated right after the link stratum (where a sort that
+   mixes stratum in-degrees with rule-level edges puts it when `out` is written first) the planned run leaves `out` empty, in
+   dependency order it is the least model (5 tuples).  The tie runs rule-order variants of programs of that kind
+   (gen/scc_shapes.py). *)
+From AV Require Plan.PlanOrder.
+From AV Require Engine.Vocab.
+
+Theorem c06_consumer_before_producer_rejected : forall P sccs j j' r r' k k',
+  nth_error P j = Some r -> nth_error P j' = Some r' -> PlanOrder.reads_from r r' = true ->
+  PlanWf.part_index sccs j 0 = Some k -> PlanWf.part_index sccs j' 0 = Some k' -> (k < k')%nat ->
+  PlanWf.sccs_ok P sccs = false.
+Proof. exact PlanOrder.sccs_ok_rejects_consumer_first. Qed.
+
+Example c06_double_edge_dependency_order :
+  PlanWf.wf_core PlanOrder.de_arities PlanOrder.de_prog = true
+  /\ PlanWf.sccs_ok PlanOrder.de_prog PlanOrder.de_good = true
+  /\ PlanOrder.same_rows (PlanOrder.run_rows PlanOrder.de_arities PlanOrder.de_prog PlanOrder.de_good PlanOrder.de_facts)
+                         (naive_fix Vocab.std_interp 200%nat PlanOrder.de_prog PlanOrder.de_facts) = true
+  /\ length (PlanOrder.facts_of 5%nat (PlanOrder.run_rows PlanOrder.de_arities PlanOrder.de_prog PlanOrder.de_good PlanOrder.de_facts)) = 5%nat.
+Proof.
+  split; [exact PlanOrder.de_wf|]. split; [exact (proj1 PlanOrder.de_good_ok)|].
+  split; [exact (proj1 PlanOrder.de_good_runs)|exact (proj2 PlanOrder.de_good_runs)].
+Qed.
+
+Example c06_double_edge_consumer_first_loses_tuples :
+  PlanWf.sccs_ok PlanOrder.de_prog PlanOrder.de_premature = false
+  /\ validate PlanOrder.de_arities PlanOrder.de_prog (PlanModel.compile_model PlanOrder.de_arities PlanOrder.de_prog PlanOrder.de_premature) = false
+  /\ PlanOrder.facts_of 5%nat (PlanOrder.run_rows PlanOrder.de_arities PlanOrder.de_prog PlanOrder.de_premature PlanOrder.de_facts) = []
+  /\ length (PlanOrder.facts_of 5%nat (naive_fix Vocab.std_interp 200%nat PlanOrder.de_prog PlanOrder.de_facts)) = 5%nat.
+Proof.
+  split; [exact PlanOrder.de_premature_rejected|]. split; [exact (proj1 PlanOrder.de_premature_loses_tuples)|].
+  split; [exact (proj1 (proj2 PlanOrder.de_premature_loses_tuples))|exact (proj1 (proj2 (proj2 PlanOrder.de_premature_loses_tuples)))].
+Qed.
+
+Print Assumptions c06_consumer_before_producer_rejected.
+Print Assumptions c06_double_edge_dependency_order.
+Print Assumptions c06_double_edge_consumer_first_loses_tuples.
